@@ -926,7 +926,7 @@ func (rule *RuleExpression) checkMatrix(m *Matrix) *ObjectType {
 
 	for _, combi := range m.Include.Combinations {
 		if combi.Expression != nil {
-			ty := rule.checkOneExpression(m.Include.Expression, "matrix combination at element of include section", "jobs.<job_id>.strategy")
+			ty := rule.checkOneExpression(combi.Expression, "matrix combination at element of include section", "jobs.<job_id>.strategy")
 			if ty == nil {
 				continue
 			}
